@@ -19,5 +19,6 @@ std::string read_array_raw(const nix::DataArray &da, bool &ok);
 Node observe_block(const nix::Block &b); Node observe_array(const nix::DataArray &a); Node observe_frame(const nix::DataFrame &f);
 Node observe_tag(const nix::Tag &t); Node observe_mtag(const nix::MultiTag &t); Node observe_group(const nix::Group &g);
 Node observe_source(const nix::Source &s); Node observe_section(const nix::Section &s); Node observe_property(const nix::Property &p);
+Node observe_dimension(const nix::Dimension &d);     // one descriptor through a given handle (same fragment as an element of an array's "dims")
 }
 #endif
